@@ -181,3 +181,24 @@ func sliceOptim() *slice {
 		modes: []lib.Mode{{Env: "struct"}, {Env: "noenv"}, {Env: "map"}},
 		maxN:  map[string]int{"quick": 5, "thorough": 6}}
 }
+
+// nesttype: nested builtins over collections of different element types, with
+// type-directed code (==, in-range, in-array) on '#' after an inner builtin.
+func sliceNestType() *slice {
+	rules := []*Rule{
+		Lit("true", TBool, true),
+		Var("FA", TFloatArr), Var("A", TIntArr), Var("SA", TStrArr),
+		Hash(TFloat), Hash(TInt), Hash(TStr),
+		Lit("1..3", TIntArr, []int{1, 2, 3}), Lit("[1, 2]", TIntArr, []int{1, 2}), Lit("1", TInt, 1), Lit(`"a"`, TStr, "a"),
+		Bin("and", TBool, TBool, TBool),
+		Bin("in", TFloat, TIntArr, TBool), Bin("in", TInt, TIntArr, TBool),
+		Bin("==", TInt, TInt, TBool), Bin("==", TFloat, TInt, TBool), Bin("==", TStr, TStr, TBool),
+	}
+	for _, a := range []Ty{TFloatArr, TIntArr, TStrArr} {
+		rules = append(rules, Builtin("all", a, TBool, TBool), Builtin("any", a, TBool, TBool), Builtin("count", a, TBool, TInt))
+	}
+	rules = append(rules, Builtin("filter", TFloatArr, TBool, TFloatArr), Builtin("filter", TIntArr, TBool, TIntArr),
+		Builtin("map", TFloatArr, TBool, TAnyArr), Builtin("map", TIntArr, TBool, TAnyArr))
+	return &slice{name: "nesttype", g: NewGrammar(rules), tops: []NT{nt(TBool), nt(TFloatArr), nt(TIntArr), nt(TAnyArr), nt(TInt)},
+		modes: lib.AllModes, maxN: map[string]int{"quick": 9, "thorough": 10}}
+}
